@@ -417,10 +417,26 @@ pub fn drive_decrypt_faults(t: &mut Tracer, tier: &str, seed: u64, plan: Option<
             }
         }
     }
-    // crafted ciphertexts from the TLC plan (valid C3 for the point the library would compute)
+    // crafted ciphertexts from the TLC plan (valid C3 for the point the library would compute): through the raw entry point and,
+    // for the uncompressed ones, re-framed as the GM/T 0009 DER SEQUENCE through decrypt_asn1 (every decryption path must validate C1)
+    let tlv = |tag: u8, v: &[u8]| -> Vec<u8> { let mut o = vec![tag]; if v.len() < 128 { o.push(v.len() as u8); } else if v.len() < 256 { o.push(0x81); o.push(v.len() as u8); } else { o.push(0x82); o.push((v.len() >> 8) as u8); o.push(v.len() as u8); } o.extend_from_slice(v); o };
+    let der_int = |v: &[u8]| -> Vec<u8> { let mut i = 0; while i + 1 < v.len() && v[i] == 0 { i += 1; } let mut b = v[i..].to_vec(); if b[0] >= 0x80 { b.insert(0, 0); } b };
     for v in read_plan(&plan) {
         if v["kind"] == "craft" {
-            decrypt_event(t, &sess(), "C06", &arr(&v["d"]), &arr(&v["ct"]), v["order"].as_str().unwrap(), v["compressed"] == 1, v["fault"].as_str().unwrap());
+            let (ct, order, fault) = (arr(&v["ct"]), v["order"].as_str().unwrap().to_string(), v["fault"].as_str().unwrap().to_string());
+            decrypt_event(t, &sess(), "C06", &arr(&v["d"]), &ct, &order, v["compressed"] == 1, &fault);
+            if v["compressed"] == 0 && ct.len() > 97 {
+                let (c2, c3) = if order == "c1c2c3" { (ct[65..ct.len() - 32].to_vec(), ct[ct.len() - 32..].to_vec()) } else { (ct[97..].to_vec(), ct[65..97].to_vec()) };
+                let body = [tlv(2, &der_int(&ct[1..33])), tlv(2, &der_int(&ct[33..65])), tlv(4, &c3), tlv(4, &c2)].concat();
+                let der = tlv(0x30, &body);
+                let d = arr(&v["d"]);
+                let out = match guard(|| Sm2PrivateKey::new(&d)) {
+                    Outcome::Ok(sk) => { let c = der.clone(); guard_timed(20, move || sk.decrypt_asn1(&c, false, Sm2Model::C1C3C2)) }
+                    Outcome::Err(e) => Outcome::Err(e), Outcome::Panic(p) => Outcome::Panic(p), Outcome::Timeout => Outcome::Timeout,
+                };
+                let o = out.ok().cloned().unwrap_or_default();
+                t.emit(&sess(), "codec.asn1_dec", json!({"prop": "C06", "d": bytes(&d), "der": bytes(&der), "fault": format!("{}", fault), "out": bytes(&o), "outcome": out.name(), "detail": out.detail()}));
+            }
         }
     }
 }
